@@ -185,7 +185,19 @@ def _concatenate_shaped(arrays, shape):
     return concatenate_nested(reshapelist(tuple(shape), list(arrays)))
 
 
-KERNELS = dict(concatenate_shaped=_concatenate_shaped, getitem=_getitem, getter=_getter, getter_nofancy=_getter, getter_inline=_getter,
+def _arange(start, stop, step, length, dtype=None, like=None):
+    """dask_array._chunk.arange: np.arange(start, stop, step), dropped to `length` if one longer (exact reals)"""
+    import z3
+    from .core import SymReal, _ite
+
+    n = ((SymReal._of(stop) - start) / step).__ceil__()
+    n = _ite(n < 0, 0, n)
+    n = _ite(n > length, n - 1, n)
+    a, b = SymReal._r(start), SymReal._r(step)
+    return SArr((n,), lambda idx, a=a, b=b: a + b * z3.ToReal(idx[0]))
+
+
+KERNELS = dict(arange=_arange, concatenate_shaped=_concatenate_shaped, getitem=_getitem, getter=_getter, getter_nofancy=_getter, getter_inline=_getter,
                concatenate3=concatenate_nested, full_like=_full_like)
 SAFE_NAMES = {"add", "sub", "mul", "neg", "getitem", "transpose", "identity"}
 
